@@ -312,6 +312,83 @@ theorem fromFile_finish (enc : Bytes → Bytes) (dec : Bytes → Option Bytes) (
   have hne1 : ¬ (headerSize p.blobs ≠ (enc (toBinary p.blobs)).length) := fun hne => hne hs
   simp only [hne1, if_false, ne_eq, not_true_eq_false]
 
+/-- `from_file` on ANY file that ends in the encrypted header of `bs` followed by its length field — whatever bytes `D` come
+before it — read with the file's own length `N` as pack size: the header is found for every size hint, and the verdict is the
+size comparison alone.  (`D` = the blob area of the pack the header belongs to: `fromFile_finish`; `D` = prefix ++ blob area:
+the pack extended at its front.) -/
+theorem fromFile_layout (enc : Bytes → Bytes) (dec : Bytes → Option Bytes) (ae : AE enc dec) (bs : List IndexBlob)
+    (hwf : ∀ b ∈ bs, WFBlob b) (hoff : reoffset 0 bs = bs) (D : Bytes) (N : Nat)
+    (hN : N = D.length + (enc (toBinary bs)).length + 4) (hfit : N < 4294967296) (hint : Option Nat) :
+    fromFile dec (D ++ (enc (toBinary bs) ++ le32 (enc (toBinary bs)).length)) hint N
+      = if packSize bs ≠ N then .error .packSize else .ok bs := by
+  generalize hE : enc (toBinary bs) = E at hN ⊢
+  have hEl : E.length = (toBinary bs).length + Rustic.Gen.PACK_COMP_OVERHEAD := by
+    rw [← hE, ae.len]
+  have hLl : (le32 E.length).length = 4 := rfl
+  have hE32 : E.length < 4294967296 := by omega
+  have c4 : Rustic.Gen.PACK_LENGTH_LEN = 4 := rfl
+  unfold fromFile
+  rw [if_neg (by rw [c4]; omega)]
+  simp only [c4]
+  generalize hg : min (hint.getD 0) (N - 4) = g
+  have hgle : g ≤ N - 4 := by rw [← hg]; exact Nat.min_le_right _ _
+  have hfl : (D ++ (E ++ le32 E.length)).length = N := by simp [List.length_append, hLl]; omega
+  have hrp : readPartial (D ++ (E ++ le32 E.length)) (N - (g + 4)) (g + 4) =
+      some ((D ++ (E ++ le32 E.length)).drop (N - (g + 4))) := by
+    unfold readPartial
+    rw [if_pos (by rw [hfl]; omega)]
+    congr 1
+    apply List.take_of_length_le
+    rw [List.length_drop, hfl]; omega
+  rw [hrp]
+  simp only
+  have hdropL : ((D ++ (E ++ le32 E.length)).drop (N - (g + 4))).drop g = le32 E.length := by
+    rw [List.drop_drop]
+    have : N - (g + 4) + g = (D ++ E).length := by simp [List.length_append]; omega
+    rw [this, ← List.append_assoc, List.drop_left]
+  rw [hdropL, le32Val_le32' _ hE32]
+  rw [if_neg (by omega)]
+  have hhdr : (if E.length ≤ g then
+        some ((((D ++ (E ++ le32 E.length)).drop (N - (g + 4))).take g).drop (g - E.length))
+      else readPartial (D ++ (E ++ le32 E.length)) (N - E.length - 4) E.length) = some E := by
+    have hDE : (D ++ (E ++ le32 E.length)).drop D.length = E ++ le32 E.length := List.drop_left
+    split
+    · rename_i hle
+      congr 1
+      rw [List.drop_take, List.drop_drop]
+      have e1 : N - (g + 4) + (g - E.length) = D.length := by omega
+      have e2 : g - (g - E.length) = E.length := by omega
+      rw [e1, e2, hDE, List.take_left]
+    · unfold readPartial
+      have e1 : N - E.length - 4 = D.length := by omega
+      rw [e1, if_pos (by rw [hfl]; omega), hDE, List.take_left]
+  rw [hhdr]
+  simp only
+  rw [← hE, ae.inv]
+  simp only
+  rw [fromBinary_toBinary _ hwf, hoff]
+  simp only
+  have hs : headerSize bs = (enc (toBinary bs)).length := by
+    rw [headerSize_eq, ae.len, toBinary_length]; omega
+  have hne1 : ¬ (headerSize bs ≠ (enc (toBinary bs)).length) := fun hne => hne hs
+  rw [if_neg hne1]
+
+/-- a pack EXTENDED AT ITS FRONT by any non-empty prefix is refused by `from_file` for every size hint, with the pack-size
+error: the header (still intact at the end) describes a file that is shorter than the one it is read from -/
+theorem fromFile_front_extended (enc : Bytes → Bytes) (dec : Bytes → Option Bytes) (ae : AE enc dec) (p : Packer)
+    (h : p.Inv) (hwf : ∀ b ∈ p.blobs, WFBlob b) (pre : Bytes) (hpre : pre ≠ [])
+    (hfit : pre.length + packSize p.blobs < 4294967296) (hint : Option Nat) :
+    fromFile dec (pre ++ (p.finish enc).1) hint (pre.length + packSize p.blobs) = .error .packSize := by
+  have hlen := finish_length enc ae.len p h
+  rw [finish_file] at hlen ⊢
+  have hpos : 0 < pre.length := List.length_pos_iff.mpr hpre
+  have hN : pre.length + packSize p.blobs = (pre ++ p.file.flatten).length + (enc (toBinary p.blobs)).length + 4 := by
+    simp only [List.length_append, Packer.headerBytes, le32_length] at hlen ⊢
+    omega
+  have := fromFile_layout enc dec ae p.blobs hwf h.offsets (pre ++ p.file.flatten) (pre.length + packSize p.blobs) hN hfit hint
+  simp only [Packer.headerBytes, List.append_assoc] at this ⊢
+  rw [this, if_pos (by omega)]
+
 theorem find_by_fst {α : Type} (l : List (Nat × α)) (hn : (l.map (·.1)).Nodup) (q : Nat × α) (hq : q ∈ l) :
     l.find? (fun x => x.1 == q.1) = some q := by
   induction l with
